@@ -14,7 +14,7 @@ theorem pushed_facts {us : List (PUnit ℚ)} {a : Nat} {pos v : List ℚ} {ts : 
     {created : List (HandlerId × IdTuple)} (hk : KinI env.L us a pos v ts) (hv : geo.velOK v) (hts : Normalised ts)
     (hc : CandsOK env geo c us last o created) {h : HandlerId} {t : XTime}
     (hm : (h, t) ∈ created.map (fun q => (q.1, o.cand q.1))) :
-    NormX t ∧ (kindOfH c h = .cellBoundary → ∃ τ, t = .fin τ ∧ Normalised τ ∧ StayUntil env pos v ts τ) ∧
+    NormX t ∧ (kindOfH c h = .cellBoundary → ∃ τ, t = .fin τ ∧ Normalised τ ∧ StayUntil env pos v ts τ ∧ val ts < val τ) ∧
     (kindOfH c h ≠ .cellBoundary → xcfg.lt t last = false) := by
   obtain ⟨q, hq, hqe⟩ := List.mem_map.mp hm
   simp only [Prod.mk.injEq] at hqe
@@ -22,21 +22,24 @@ theorem pushed_facts {us : List (PUnit ℚ)} {a : Nat} {pos v : List ℚ} {ts : 
   obtain ⟨h1, h2⟩ := hc q hq
   by_cases hkq : kindOfH c q.1 = .cellBoundary
   · obtain ⟨a0, u, v0, ts0, _, hu, hv0, hts0, hcand⟩ := h1 hkq
-    obtain ⟨rfl, hp, rfl, rfl⟩ := mover_unique hk hu hv0 hts0
-    rw [hcand, hp]
-    refine ⟨add_normalised _ _ hts, fun _ => ⟨_, rfl, add_normalised _ _ hts, ?_⟩, fun hne => absurd hkq hne⟩
-    exact stayUntil_of_geo geo hk.vlen.2.2 hv
+    obtain ⟨_, hp, hv0e, hts0e⟩ := mover_unique hk hu hv0 hts0
+    rw [hcand, hp, hv0e, hts0e]
+    refine ⟨add_normalised _ _ hts, fun _ => ⟨_, rfl, add_normalised _ _ hts, ?_, ?_⟩, fun hne => absurd hkq hne⟩
+    · exact stayUntil_of_geo geo hk.vlen.2.2 hv
+    · rw [add_val]; linarith [geo.pos pos v hk.vlen.2.2 hv]
   · exact ⟨(h2 hkq).1, fun hc' => absurd hc' hkq, fun _ => (h2 hkq).2⟩
 
 /-- **the induction step** (every leg after the first) -/
 theorem big_step (H : Hyp env c S) {cs : List (Committed XTime)} {cl : Committed XTime} {s : Sys} {E : TaggerIdx}
     {tl : Time ℚ} {a : Nat} {pos v : List ℚ} {ts : Time ℚ} (big : Big env geo c S needs cs cl s E tl a pos v ts)
-    (hgo : cl.stop = false) {o : Oracle XTime} {cm : Committed XTime} {s' : Sys}
-    (st : SysStep env geo c S needs s o cm s') (nt : TieFreeLeg c (pendOf (fun _ => none) cs) cm) :
+    (hgo : cl.stop = false) (ntl : TieFreeLeg c (pendOf (fun _ => none) cs.dropLast) cl)
+    {o : Oracle XTime} {cm : Committed XTime} {s' : Sys}
+    (st : SysStep env geo c S needs s o cm s') :
     ∃ E' tl' a' pos' v' ts', Big env geo c S needs (cs ++ [cm]) cm s' E' tl' a' pos' v' ts' := by
   have hs : Med.Static (mwire c S needs) := hyp_static H
   have pok : PoolsOK c.wires := poolsOK_wires c
-  obtain ⟨hc', hrun'⟩ := mid_run H big hgo st
+  obtain ⟨hc', hrun'⟩ := mid_run H big hgo ntl st
+  obtain ⟨_, born', hr8'⟩ := mid_cur H big hgo st
   have inv' := Act.run_inv c (world env c) (Tr env c) S H.sound H.hS (Footprints.footprintsSound_concrete env c H.sup) (liveIs env c) hrun'
   obtain ⟨minv', ok, hpushed, hprec', hstop', E', hE', hrunE', htr', hts'⟩ :=
     leg_inv (specLaws xcfg_strictWeak) hs big.med st.leg
@@ -67,8 +70,10 @@ theorem big_step (H : Hyp env c S) {cs : List (Committed XTime)} {cl : Committed
       ∃ τ, tb = .fin τ ∧ Normalised τ ∧ StayUntil env pos v ts τ := by
     intro hO hb tb hkb e
     rcases pushAll_some _ _ e with h1 | h1
-    · exact big.cb hO hgo hb tb hkb h1
-    · rw [hpushed] at h1; exact (pushed_facts big.kin big.vel big.tsnorm hcands h1).2.1 hkb
+    · exact big.cb hO hgo ntl hb tb hkb h1
+    · rw [hpushed] at h1
+      obtain ⟨τ, h2, h3, h4, _⟩ := (pushed_facts big.kin big.vel big.tsnorm hcands h1).2.1 hkb
+      exact ⟨τ, h2, h3, h4⟩
   -- the committed time
   have ht'n : Normalised t' := by
     have := normP _ _ ok.pending
@@ -79,20 +84,19 @@ theorem big_step (H : Hyp env c S) {cs : List (Committed XTime)} {cl : Committed
     exact (xlt_false_iff ht'n big.tnorm).mp this
   have hkE' : kindOfH c cm.handler = (c.tagger E').kind := kindOfH_of_owner hE'
   rw [hkE'] at hcom
-  obtain ⟨a', pos', v', ts', hk', hv', hts'n, hts'le, hquiet⟩ :=
+  obtain ⟨a', pos', v', ts', hk', hv', hts'n, hts'le, htsEq', hquiet⟩ :=
     kin_step H.ho big.kin big.vel big.tsnorm ht'n (le_trans big.tsle hle) hcom
   -- a pending cell-boundary candidate is not before the commit; strictly after it if a sampling / dumping event commits
   have cb_after : ∀ hb tb τ, kindOfH c hb = .cellBoundary → pendPushed (pendOf (fun _ => none) cs) cm hb = some tb →
       tb = .fin τ → Normalised τ → val t' ≤ val τ ∧
-        (((c.tagger E').kind = .sampling ∨ (c.tagger E').kind = .dumping) → val t' < val τ) := by
+        (NoTieAll c (pendOf (fun _ => none) cs) cm → val t' < val τ) := by
     intro hb tb τ hkb e hτ hτn
     have hmin := ok.minimal hb tb e (by rw [hτ]; rfl)
     rw [hτ, ht'eq] at hmin
     have h1 := (xlt_false_iff hτn ht'n).mp hmin
-    refine ⟨h1, fun hq => lt_of_le_of_ne h1 ?_⟩
+    refine ⟨h1, fun hnt => lt_of_le_of_ne h1 ?_⟩
     intro heq
-    have := nt (by rw [hkE']; exact hq) hb hkb
-    apply this
+    apply hnt hb hkb
     rw [e, hτ, ht'eq, normalised_ext hτn ht'n heq.symm]
   have hpl : pos.length = env.L.length := big.kin.vlen.2.1
   have hvl : v.length = env.L.length := big.kin.vlen.1
@@ -124,8 +128,13 @@ theorem big_step (H : Hyp env c S) {cs : List (Committed XTime)} {cl : Committed
       vel := hv'
       tsnorm := hts'n
       tsle := hts'le
+      tsEq := htsEq'
       phase := ⟨hc', Or.inr hrun'⟩
+      cur := ⟨hc', born', hr8'⟩
+      wfPrev := fun u hu => let ⟨i, hi⟩ := List.mem_iff_getElem?.mp hu; (big.kin.2 i u hi).1
+      kinPrev := Or.inr ⟨a, pos, v, ts, big.kin⟩
       commit := hcom
+      mirror := ?_
       stays := ?_
       cb := ?_ }
   · -- started
@@ -141,21 +150,35 @@ theorem big_step (H : Hyp env c S) {cs : List (Committed XTime)} {cl : Committed
     split at e'
     · cases e'
     · exact normP h t e'
+  · -- mirror
+    intro hO a0 hm hrel
+    rw [big.kin.movers] at hm
+    have : a0 = a := by simpa using hm.symm
+    subst this
+    rw [hO] at hocc
+    rw [occ_activeCell_mid hocc big.kin hrel]
+    obtain ⟨⟨ua, hua, hp, _⟩, _⟩ := big.kin
+    simp [unitIn, hua, hp]
   · -- stays
-    intro hO hq a'' hm hrel
-    obtain ⟨rfl, rfl, hpos'⟩ := hquiet hq
-    rw [hk'.movers] at hm
-    have : a'' = a' := by simpa using hm.symm
+    intro hO hncb hnt a0 hm hrel
+    rw [List.dropLast_concat] at hnt
+    rw [big.kin.movers] at hm
+    have : a0 = a := by simpa using hm.symm
     subst this
     have hcell : occ'.activeCell = some (env.cellOf pos) := by
       rw [hO] at hocc
       exact occ_activeCell_mid hocc big.kin hrel
-    have hunit : (unitIn env us' a'').cell = env.cellOf pos' := by
-      obtain ⟨⟨ua, hua, hp, _⟩, _⟩ := hk'
-      simp [unitIn, hua, hp]
-    rw [hcell, hunit]
-    rcases hpos' with ⟨rfl, _⟩ | ⟨rfl, _⟩
+    rw [hcell]
+    rcases old_mover_pos H.ho big.kin hcom hncb with hpos | hsame
     · -- time-sliced: the pending cell-boundary event is strictly later
+      have hunit : (unitIn env us' a0).cell = env.cellOf (sliceVec Ops.rat env.L pos v (Time.sub t' ts)) := by
+        cases hu : us'[a0]? with
+        | none => rw [hu] at hpos; simp at hpos
+        | some u =>
+          rw [hu] at hpos
+          simp only [Option.map_some, Option.some.injEq] at hpos
+          simp [unitIn, hu, hpos]
+      rw [hunit]
       obtain ⟨B, hB, hBc, hBk, _, hBr⟩ := cbWired_spec H.cb hO
       have hBa : (getT mid' B).activated = true := by
         have := hBr _ inv'.reach
@@ -165,11 +188,14 @@ theorem big_step (H : Hyp env c S) {cs : List (Committed XTime)} {cl : Committed
         rw [kindOfH_of_owner (owner_of_running pok pmid hhb)]; exact hBk
       obtain ⟨tb, htb⟩ := Option.isSome_iff_exists.mp ((mirr hb).mpr ⟨B, hhb⟩)
       obtain ⟨τ, hτ, hτn, hstay⟩ := midcb hO hb tb hkb htb
-      have hlt := (cb_after hb tb τ hkb htb hτ hτn).2 hq
+      have hlt := (cb_after hb tb τ hkb htb hτ hτn).2 hnt
       rw [(stayUntil_slice geo.posBox hpl hvl hstay (le_trans big.tsle hle) hlt).1]
-    · rfl
+    · subst hsame
+      obtain ⟨⟨ua, hua, hp, _⟩, _⟩ := big.kin
+      simp [unitIn, hua, hp]
   · -- the pending cell-boundary candidates after the trash
-    intro hO hstop hb tb hkb e
+    intro hO hstop hntc hb tb hkb e
+    rw [List.dropLast_concat] at hntc
     rw [pendOf_snoc] at e
     have e' : dropAll (pendPushed (pendOf (fun _ => none) cs) cm) cm.trashed hb = some tb := e
     rw [dropAll_eq] at e'
@@ -182,7 +208,7 @@ theorem big_step (H : Hyp env c S) {cs : List (Committed XTime)} {cl : Committed
         refine ⟨τ, hτ, hτn, ?_⟩
         rcases hpos' with ⟨rfl, rfl⟩ | ⟨rfl, rfl⟩
         · exact (stayUntil_slice geo.posBox hpl hvl hstay (le_trans big.tsle hle)
-            ((cb_after hb tb τ hkb e' hτ hτn).2 hq)).2
+            ((cb_after hb tb τ hkb e' hτ hτn).2 (hntc (by rw [hkE']; exact hq)))).2
         · exact hstay
       · -- any other commit trashes the cell-boundary tagger
         exfalso
@@ -208,6 +234,115 @@ theorem big_step (H : Hyp env c S) {cs : List (Committed XTime)} {cl : Committed
               (affects_ident_of (fun h => hq (Or.inl h)) (fun h => hq (Or.inr h)) hend hcbk) hB hBc hBk hBa
         rw [htr']
         exact (trashLoop_out_mem _ _ hb).mpr ⟨T, by rw [(getW_wires c E').2.1]; exact hin, hT⟩
+
+/-- **`CandOK` of E1 for a leg after the first** (every candidate of a handler handed out is not before the last commit): by
+hypothesis for the handlers that are not cell-boundary handlers, DERIVED for the cell-boundary handler — its candidate is the time
+stamp of the active unit, which is the time of the last commit, plus a positive time to the boundary (`Geo.pos`, i.e.
+`JF.C11.boundary_pos`).  Stated for whatever `get_event_handlers_to_run` hands out (the leg need not succeed). -/
+theorem candOK_created (H : Hyp env c S) (hdq : dumpQuiet c = true) {cs : List (Committed XTime)} {cl : Committed XTime}
+    {s : Sys} {E : TaggerIdx} {tl : Time ℚ} {a : Nat} {pos v : List ℚ} {ts : Time ℚ}
+    (big : Big env geo c S needs cs cl s E tl a pos v ts) {o : Oracle XTime} {a1 : ActSt}
+    {created : List (HandlerId × IdTuple)}
+    (hgtr : getToRun (mwire c S needs).w (mwire c S needs).S s.med.act s.med.preceding o.yields = (a1, .ok created))
+    (hcands : CandsOK env geo c s.us s.med.sched.last o created) :
+    ∀ q ∈ created, xcfg.lt (o.cand q.1) cl.time = false := by
+  have hs : Med.Static (mwire c S needs) := hyp_static H
+  have pok : PoolsOK c.wires := poolsOK_wires c
+  rw [big.prec] at hgtr
+  have hupd : update c.wires s.med.act.ts E o.yields = some (a1.ts, created) :=
+    getToRun_started big.started big.owner hgtr
+  have hcr := (C09.update_returns_only_not_running hs.wf pok big.med.pool hupd).2
+  rw [big.med.rel.last] at hcands
+  intro q hq
+  have hq' : (q.1, o.cand q.1) ∈ created.map (fun p => (p.1, o.cand p.1)) := List.mem_map.mpr ⟨q, hq, rfl⟩
+  obtain ⟨_, hcb, hother⟩ := pushed_facts big.kin big.vel big.tsnorm hcands hq'
+  by_cases hk : kindOfH c q.1 = .cellBoundary
+  · obtain ⟨τ, hτ, hτn, _, hlt⟩ := hcb hk
+    have hnd : (c.tagger E).kind ≠ .dumping := by
+      intro hd
+      -- a dumping tagger creates no cell-boundary handler
+      have hkey : q.1 ∈ created.map Prod.fst := List.mem_map.mpr ⟨q, hq, rfl⟩
+      obtain ⟨⟨T, hT, hnr⟩, _⟩ := hcr q.1 hkey
+      have hEn : E < c.n := by rw [← c.wires_length]; exact owner_lt big.owner
+      have hTn : T < c.wires.length := (hs.wf E).2 T hT
+      have hown : owner c.wires q.1 = some T := owner_of_mem_pool pok hTn (big.med.pool.mem_pool_of_notRunning hnr)
+      rw [kindOfH_of_owner hown] at hk
+      have := List.all_eq_true.mp hdq E (List.mem_range.mpr hEn)
+      simp only [hd, bne_self_eq_false, Bool.false_or, List.all_eq_true, bne_iff_ne, ne_eq] at this
+      have hT' : T ∈ (c.tagger E).creates := by rw [← (getW_wires c E).1]; exact hT
+      exact this T hT' hk
+    rw [hτ, big.time, xlt_false_iff hτn big.tnorm, ← big.tsEq hnd]
+    exact le_of_lt hlt
+  · exact hother hk
+
+theorem candOK_step (H : Hyp env c S) (hdq : dumpQuiet c = true) {cs : List (Committed XTime)} {cl : Committed XTime}
+    {s : Sys} {E : TaggerIdx} {tl : Time ℚ} {a : Nat} {pos v : List ℚ} {ts : Time ℚ}
+    (big : Big env geo c S needs cs cl s E tl a pos v ts) {o : Oracle XTime} {cm : Committed XTime} {s' : Sys}
+    (st : SysStep env geo c S needs s o cm s') : ∀ q ∈ cm.pushed, xcfg.lt q.2 cl.time = false := by
+  obtain ⟨a1, s1, a2, s3, hgtr, _, _, _, _, _, hpushed, _⟩ := leg_ok st.leg
+  intro q hq
+  rw [hpushed] at hq
+  obtain ⟨p, hp, rfl⟩ := List.mem_map.mp hq
+  exact candOK_created H hdq big hgtr st.cands p hp
+
+/-- **C08, clause (h) at a leg of the composed system** (no footprint hypothesis): when the committed event may change the motion
+of a unit, every handler of an interaction / cell-veto tagger that is running in the middle of the leg is in the leg's trash list -/
+theorem stale_trashed_step (H : Hyp env c S) {cs : List (Committed XTime)} {cl : Committed XTime} {s : Sys} {E : TaggerIdx}
+    {tl : Time ℚ} {a : Nat} {pos v : List ℚ} {ts : Time ℚ} (big : Big env geo c S needs cs cl s E tl a pos v ts)
+    (hgo : cl.stop = false) (ntl : TieFreeLeg c (pendOf (fun _ => none) cs.dropLast) cl)
+    {o : Oracle XTime} {cm : Committed XTime} {s' : Sys} (st : SysStep env geo c S needs s o cm s')
+    {E' : TaggerIdx} (hE' : owner c.wires cm.handler = some E') (hm : affects (c.tagger E') .motion = true)
+    {T : TaggerIdx} (hT : T < c.n) (hb : motionBound (c.tagger T) = true) {h : HandlerId}
+    (hh : h ∈ (getT s'.mid T).running) : h ∈ cm.trashed := by
+  have hs : Med.Static (mwire c S needs) := hyp_static H
+  obtain ⟨hc', hrun'⟩ := mid_run H big hgo ntl st
+  obtain ⟨_, _, _, _, _, E0, hE0, hrunE0, htr0, _⟩ := leg_inv (specLaws xcfg_strictWeak) hs big.med st.leg
+  have hE0' : owner c.wires cm.handler = some E0 := hE0
+  rw [hE'] at hE0'
+  have : E' = E0 := Option.some.inj hE0'
+  subst this
+  have hrunE' : cm.handler ∈ (getT s'.mid E').running := by rw [st.mid']; exact hrunE0
+  have htr' : cm.trashed = (trash c.wires s'.mid E').2 := by rw [st.mid']; exact htr0
+  have hend : (c.tagger E').kind ≠ .endOfRun := by
+    intro hk; simp [affects, hk] at hm
+  rcases run_clause_h c (world env c) (Tr env c) S H.sound H.hS (Footprints.footprintsSound_concrete env c H.sup)
+      (liveIs env c) hrun' (E := E') (List.ne_nil_of_mem hrunE') hend hm hT hb with h1 | h1
+  · rw [htr']
+    exact (trashLoop_out_mem _ _ h).mpr ⟨T, h1, hh⟩
+  · have h1' : (getT s'.mid T).running = [] := h1
+    rw [h1'] at hh; cases hh
+
+/-- in the first leg only the start-of-run handler has a pending event -/
+theorem first_leg_pending_kind (H : Hyp env c S) {s : Sys} (hi : Init env c s) {o : Oracle XTime} {cm : Committed XTime}
+    {s' : Sys} (st : SysStep env geo c S needs s o cm s') {h : HandlerId}
+    (hp : (pendPushed (fun _ => none) cm h).isSome) : kindOfH c h = .startOfRun := by
+  have hs : Med.Static (mwire c S needs) := hyp_static H
+  have pok : PoolsOK c.wires := poolsOK_wires c
+  obtain ⟨_, hSk, _⟩ := start_spec H.hS
+  have minv0 : MInv (I := specI xcfg) (mwire c S needs) (SRel xcfg) s.med (fun _ => none) xcfg.bot := by
+    rw [hi.med]; exact minv_init (specLaws xcfg_strictWeak) (mwire c S needs)
+  obtain ⟨pmid0, mirr0, _⟩ := mid_mirror hs minv0 st.leg
+  obtain ⟨a1, s1, a2, s3, hgtr, _⟩ := leg_ok st.leg
+  have pmid : PoolInv c.wires s'.mid := by rw [st.mid']; exact pmid0
+  have mirr : ∀ x, (pendPushed (fun _ => none) cm x).isSome ↔ ∃ T, x ∈ (getT s'.mid T).running := by
+    rw [st.mid']; exact mirr0
+  have hmid : s'.mid = a1.ts := by rw [st.mid']; exact midAct_eq hgtr
+  have hact0 : s.med.act = ⟨false, initAct c.wires⟩ := by rw [hi.med]; rfl
+  have hpre0 : s.med.preceding = none := by rw [hi.med]; rfl
+  rw [hpre0] at hgtr
+  obtain ⟨hfirst, _⟩ := getToRun_first (by rw [hact0]) hgtr
+  rw [hact0] at hfirst
+  have hfirst : first c.wires (initAct c.wires) S o.yields = some (s'.mid, cm.created) := by rw [hmid]; exact hfirst
+  obtain ⟨T, hT⟩ := (mirr h).mp hp
+  have : T = S := by
+    by_contra hne
+    have hne' : T ∉ [S] := by simp [hne]
+    have hf := hfirst
+    unfold first at hf
+    rw [createLoop_frame hf hne', applyActivation_running, getT_initAct] at hT
+    split at hT <;> simp [TState.empty] at hT
+  subst this
+  rw [kindOfH_of_owner (owner_of_running pok pmid hT)]; exact hSk
 
 /-- **the base case**: the first leg (the start-of-run handler is handed out and commits) -/
 theorem first_step (H : Hyp env c S) {s : Sys} (hi : Init env c s) {o : Oracle XTime} {cm : Committed XTime} {s' : Sys}
@@ -321,8 +456,13 @@ theorem first_step (H : Hyp env c S) {s : Sys} (hi : Init env c s) {o : Oracle X
       vel := hv'
       tsnorm := ht'n
       tsle := le_refl _
-      phase := ⟨hc0, Or.inl ⟨rfl, s.ids, cm.created, ?_, st.ids'⟩⟩
+      tsEq := fun _ => rfl
+      phase := ⟨hc0, Or.inl ⟨rfl, rfl, s.ids, cm.created, ?_, st.ids'⟩⟩
+      cur := ⟨hc0, fun _ => ⟨⟨s.us, s.occ⟩, hc0⟩, ?_⟩
+      wfPrev := hi.wf
+      kinPrev := Or.inl hi.rest
       commit := by rw [hSk]; exact hcom
+      mirror := ?_
       stays := ?_
       cb := ?_ }
   · have h2 := getTrashable_started hgtrash
@@ -337,10 +477,15 @@ theorem first_step (H : Hyp env c S) {s : Sys} (hi : Init env c s) {o : Oracle X
     · exact (normP h t e').1
   · have hy : (fun T => (world env c).yieldOf T ⟨⟨s.us, s.occ⟩, hc0⟩) = o.yields := by rw [st.yields]; rfl
     rw [hy]; exact hfirst
-  · intro _ hq
-    rw [hSk] at hq
-    rcases hq with hq | hq <;> cases hq
-  · intro _ _ hb tb hkb e
+  · have hy : (fun T => (world env c).yieldOf T ⟨⟨s.us, s.occ⟩, hc0⟩) = o.yields := by rw [st.yields]; rfl
+    have hids : ids' = assign s.ids cm.created := st.ids'
+    rw [hids]
+    exact C08.Reach8.start s.ids (⟨⟨s.us, s.occ⟩, hc0⟩ : G env c) mid' cm.created (by rw [hy]; exact hfirst)
+  · intro _ a0 hm _
+    rw [hrest] at hm; cases hm
+  · intro _ _ _ a0 hm _
+    rw [hrest] at hm; cases hm
+  · intro _ _ _ hb tb hkb e
     rw [pendOf_snoc] at e
     have e' : dropAll (pendPushed (fun _ => none) cm) cm.trashed hb = some tb := e
     rw [dropAll_eq] at e'
